@@ -163,6 +163,17 @@ class ProxyHandler(RequestHandler):
                 response.status,
             )
 
+            # A header that cannot be relayed as a single header line (bare CR
+            # or LF in the meta, or a meta over 1024 bytes) is a malformed
+            # upstream response
+            meta = response.meta
+            if "\r" in meta or "\n" in meta or len(meta.encode("utf-8")) > 1024:
+                logger.warning("Upstream sent an invalid response header: %s", upstream_url)
+                return GeminiResponse(
+                    status=StatusCode.PROXY_ERROR.value,
+                    meta="Upstream sent an invalid response header",
+                )
+
             # Pass through the response as-is. A text body was decoded by the
             # client with the charset the upstream declared; relaying the
             # decoded string would re-encode it as UTF-8 under the original
